@@ -1,6 +1,8 @@
 /-
 C01 — executable model of the detector-pair ↔ bin bookkeeping of
-`ProjDataInfoCylindricalNoArcCorr` / `ProjDataInfoCylindrical` / `ProjDataInfo::ProjDataInfoCTI`.
+`ProjDataInfoCylindricalNoArcCorr` / `ProjDataInfoCylindrical` / `ProjDataInfo::ProjDataInfoCTI` /
+`ProjDataInfo::ProjDataInfoGE`, and of the sampling setters of `ProjDataInfoCylindrical` / `ProjDataInfo`
+(`CylState`, end of the file).
 
 Sources (pinned tree):
 * interleaving tables: src/buildblock/ProjDataInfoCylindricalNoArcCorr.cxx:165 (`initialise_uncompressed_view_tangpos_to_det1det2`),
@@ -9,7 +11,10 @@ Sources (pinned tree):
 * `get_all_det_pos_pairs_for_bin`, `get_num_det_pos_pairs_for_bin`: ProjDataInfoCylindricalNoArcCorr.cxx:318-375;
 * ring-difference tables: src/buildblock/ProjDataInfoCylindrical.cxx:122 (`initialise_ring_diff_arrays`),
   :388 (`compute_segment_axial_pos_to_ring_pair`), src/include/stir/ProjDataInfoCylindrical.inl:218-262;
-* segment table: src/buildblock/ProjDataInfo.cxx:493 (`ProjDataInfoCTI`).
+* segment tables: src/buildblock/ProjDataInfo.cxx:485 (`ProjDataInfoCTI`), :619 (`ProjDataInfoGE`);
+* setters: src/buildblock/ProjDataInfoCylindrical.cxx:383-510 (`set_min/max_ring_difference`, `set_min/max_axial_pos_num`,
+  `reduce_segment_range`), src/buildblock/ProjDataInfo.cxx:117-170, :331 (`set_num_views`, `set_num_tangential_poss`,
+  `set_min/max_tangential_pos_num`, `reduce_segment_range`).
 
 C semantics: `/`,`%` on possibly negative operands are `Int.tdiv`/`Int.tmod`; `>> 1` is floor division by 2
 (the source asserts `-1 >> 1 == -1`), written `Int.fdiv · 2`.  32-bit overflow is not modelled.
@@ -230,5 +235,142 @@ def Geom.WFb (g : Geom) : Bool :=
     | some first, some last =>
       g.segs.all fun s => decide (first.minRD ≤ s.minRD) && decide (s.maxRD ≤ last.maxRD)
     | _, _ => true)
+
+/-- `WFb` without the clause "every ring pair of a covered ring difference gets an axial position inside the
+    segment's range": what the ring-pair ↔ (segment, axial position) equivalence and the bin theorems actually
+    use (`Geom.WFp_of_WFb`, ProofsAxial.lean).  After `set_min_axial_pos_num` / `set_max_axial_pos_num` /
+    `set_max_ring_difference` the range clause is false by design (positions were cut off) while this part
+    still holds. -/
+def Geom.WFp (g : Geom) : Bool :=
+  g.segs.all (fun s => decide (s.minRD ≤ s.maxRD)) &&
+  (List.range g.segs.length).all (fun i => (List.range g.segs.length).all fun j =>
+    i == j || (match g.segs[i]?, g.segs[j]? with
+      | some a, some b => decide (a.maxRD < b.minRD ∨ b.maxRD < a.minRD)
+      | _, _ => true)) &&
+  g.segs.all (fun s => match s.axOff g.R with
+    | none => false
+    | some off => (s.minRD != s.maxRD || (s.minRD - off) % 2 == 0)) &&
+  (match g.segs.head?, g.segs.getLast? with
+    | some first, some last =>
+      g.segs.all fun s => decide (first.minRD ≤ s.minRD) && decide (s.maxRD ≤ last.maxRD)
+    | _, _ => true)
+
+/-! ## `ProjDataInfo::ProjDataInfoGE` (src/buildblock/ProjDataInfo.cxx:619): the "mixed span" table -/
+
+/-- segment `j+1` of `ProjDataInfoGE`: the single ring difference `j+2`, `num_rings - (j+1) - 1` axial positions -/
+def geSegK (R : Int) (j : Nat) : Seg := ⟨(j : Int) + 2, (j : Int) + 2, R - (j : Int) - 2⟩
+
+/-- segment 0 of `ProjDataInfoGE`: ring differences -1, 0, 1 and `2*num_rings-1` axial positions -/
+def geSeg0 (R : Int) : Seg := ⟨-1, 1, 2 * R - 1⟩
+
+/-- `ProjDataInfoGE(scanner, max_delta, …)`: segments `-(max_delta-1) … max_delta-1`; `none` when the source calls
+    `error` (`max_delta < 1`).  No other argument check exists in the source (in particular none against the
+    number of rings). -/
+def geSegments (maxDelta R : Int) : Option (Int × List Seg) :=
+  if maxDelta < 1 then none
+  else
+    let n := (maxDelta - 1).toNat
+    let pos := (List.range n).map (geSegK R)
+    let neg := pos.reverse.map fun s => { s with minRD := -s.maxRD, maxRD := -s.minRD }
+    some (-(n : Int), neg ++ geSeg0 R :: pos)
+
+/-! ## sampling changed after construction (`reduce_segment_range`, `set_min/max_ring_difference`,
+`set_min/max_axial_pos_num`, `set_min/max_tangential_pos_num`, `set_num_tangential_poss`, `set_num_views`)
+
+The setters of `ProjDataInfoCylindrical` (src/buildblock/ProjDataInfoCylindrical.cxx:383-510) only store the
+new value and clear `ring_diff_arrays_computed`; the next query rebuilds `m_offset`, `ax_pos_num_offset`,
+`ring_diff_to_segment_num` and the ring-pair lists from the stored ranges (`initialise_ring_diff_arrays`, :122).
+The tangential setters (`ProjDataInfo.cxx:124,161,167`) touch nothing else: the detector tables always cover
+the full tangential range. -/
+
+/-- the stored sampling of one segment -/
+structure AxSeg where
+  minRD : Int
+  maxRD : Int
+  minAx : Int
+  maxAx : Int
+  deriving Repr, DecidableEq, Inhabited
+
+/-- `m_offset[s] = (max_ax + min_ax) * axial_sampling / 2`: only the SUM of the axial range enters the offset
+    `ax_pos_num_offset[s] = (R-1) - (max_ax+min_ax)/inc`, i.e. the tables of the segment are those of a
+    0-based segment with `max_ax + min_ax + 1` axial positions (`Seg.axOff`). -/
+def AxSeg.seg (s : AxSeg) : Seg := ⟨s.minRD, s.maxRD, s.maxAx + s.minAx + 1⟩
+
+/-- a freshly constructed segment: axial positions `0 … numAx-1` (`set_num_axial_poss_per_segment`) -/
+def AxSeg.ofSeg (s : Seg) : AxSeg := ⟨s.minRD, s.maxRD, 0, s.numAx - 1⟩
+
+structure CylState where
+  N : Int
+  R : Int
+  minSeg : Int
+  segs : List AxSeg
+  viewMash : Int
+  tofMash : Int
+  minTang : Int
+  maxTang : Int
+  deriving Repr
+
+/-- the geometry all look-ups use (`Geom.segAxOfRingPair`, `Geom.ringPairsOf`, `Geom.binForDetPair`, …) -/
+def CylState.geom (c : CylState) : Geom :=
+  { N := c.N, R := c.R, minSeg := c.minSeg, segs := c.segs.map AxSeg.seg, viewMash := c.viewMash, tofMash := c.tofMash }
+
+def CylState.ofGeom (g : Geom) (minTang maxTang : Int) : CylState :=
+  { N := g.N, R := g.R, minSeg := g.minSeg, segs := g.segs.map AxSeg.ofSeg, viewMash := g.viewMash, tofMash := g.tofMash,
+    minTang := minTang, maxTang := maxTang }
+
+def CylState.seg? (c : CylState) (s : Int) : Option AxSeg :=
+  if s < c.minSeg then none else c.segs[(s - c.minSeg).toNat]?
+
+/-- `ProjDataInfoCylindrical::reduce_segment_range(lo, hi)` (the source only asserts `minSeg ≤ lo`, `hi ≤ maxSeg`) -/
+def CylState.reduceSegmentRange (c : CylState) (lo hi : Int) : CylState :=
+  { c with minSeg := lo, segs := (c.segs.drop (lo - c.minSeg).toNat).take (hi - lo + 1).toNat }
+
+def CylState.modSeg (c : CylState) (s : Int) (f : AxSeg → AxSeg) : CylState :=
+  if s < c.minSeg then c
+  else { c with segs := c.segs.mapIdx fun i x => if i == (s - c.minSeg).toNat then f x else x }
+
+def CylState.setMinRD (c : CylState) (s v : Int) : CylState := c.modSeg s fun x => { x with minRD := v }
+def CylState.setMaxRD (c : CylState) (s v : Int) : CylState := c.modSeg s fun x => { x with maxRD := v }
+def CylState.setMinAx (c : CylState) (s v : Int) : CylState := c.modSeg s fun x => { x with minAx := v }
+def CylState.setMaxAx (c : CylState) (s v : Int) : CylState := c.modSeg s fun x => { x with maxAx := v }
+
+/-- `ProjDataInfo::set_num_tangential_poss` -/
+def CylState.setNumTang (c : CylState) (n : Int) : CylState :=
+  { c with minTang := -(n.tdiv 2), maxTang := -(n.tdiv 2) + n - 1 }
+
+/-- `initialise_ring_diff_arrays` calls `error`: some `min_ring_diff > max_ring_diff`, or (Cylindrical
+    geometry) an axial offset that is not an integer -/
+def CylState.initErr (c : CylState) : Bool :=
+  c.segs.any (fun s => decide (s.minRD > s.maxRD)) || c.segs.any fun s => (s.seg.axOff c.R).isNone
+
+/-- `get_segment_axial_pos_num_for_ring_pair` on the changed sampling: `get_segment_num_for_ring_difference`
+    tests the ring difference against the outermost segments BEFORE the lazy tables are (re)built, so a ring
+    difference outside that range is `Succeeded::no` even when the rebuild would call `error`. -/
+def CylState.segAxOfRingPair (c : CylState) (r1 r2 : Int) : Except Unit (Option (Int × Int)) :=
+  match c.segs.getLast?, c.segs.head? with
+  | some last, some first =>
+    if r2 - r1 > last.maxRD ∨ r2 - r1 < first.minRD then .ok none
+    else if c.initErr then .error ()
+    else .ok (c.geom.segAxOfRingPair r1 r2)
+  | _, _ => .ok none
+
+/-- a bin of the current sampling (segment, axial and tangential position, view inside the stored ranges) -/
+def CylState.inRange (c : CylState) (b : Bin) : Bool :=
+  match c.seg? b.seg with
+  | none => false
+  | some s => decide (s.minAx ≤ b.ax ∧ b.ax ≤ s.maxAx ∧ c.minTang ≤ b.tang ∧ b.tang ≤ c.maxTang ∧
+      0 ≤ b.view ∧ b.view * c.viewMash < c.N.tdiv 2)
+
+/-- `get_all_det_pos_pairs_for_bin(dps, bin, ignore_non_spatial_dimensions = true)`: one entry (timing position 0)
+    per unmashed view and ring pair -/
+def Geom.spatialDetPairsForBin (g : Geom) (b : Bin) : List DetPair :=
+  let views : List Int := (List.range g.viewMash.toNat).map fun (k : Nat) => b.view * g.viewMash + (k : Int)
+  views.flatMap fun uv =>
+    let (d1, d2) := viewTangToDet g.N uv b.tang
+    (g.ringPairsOf b.seg b.ax).map fun (r1, r2) => ⟨d1, r1, d2, r2, 0⟩
+
+/-- `get_num_det_pos_pairs_for_bin(bin, ignore_non_spatial_dimensions = true)` -/
+def Geom.numSpatialDetPairsForBin (g : Geom) (b : Bin) : Nat :=
+  (g.ringPairsOf b.seg b.ax).length * g.viewMash.toNat
 
 end StirVerif.C01
